@@ -5,7 +5,8 @@
    names: the operator table of the binary match test, Fuzzy geometry
    accessors, ART1/ART2-A/Hypersphere rule shapes.  Statements only. *)
 From Coq Require Import List Bool Arith Reals Lra.
-From ART Require Import Num NumR Vec Search Kernel Fuzzy Fuzzy_R ART2A ART1 ART1_R Hyper Hyper_R Kern_R.
+From Coq Require Import QArith Qreals.
+From ART Require Import Num NumR Vec Search Kernel Fuzzy Fuzzy_R ART2A ART1 ART1_R Hyper Hyper_R Kern_R Transfer.
 Import ListNotations.
 Open Scope R_scope.
 
@@ -57,7 +58,24 @@ Proof. exact art1_update_form. Qed.
 Theorem C03_fuzzy_fast :
   forall x w : list RN, length x = length w -> @fuzzy_update RN 1 x w = @vmin RN x w.
 Proof. exact fuzzy_update_fast. Qed.
+(* the instance that the correspondence EXECUTES (exact rationals) is, on rational inputs, the real-number
+   function the theorems are about: Q2R commutes with the Fuzzy ART kernel functions and with the fold of the
+   update rule over a category's members *)
+Theorem C03_executed_choice_is_the_real_function : forall (alpha : Q) (x w : list Q),
+  option_map Q2R (@fuzzy_choice QN alpha x w) = @fuzzy_choice RN (Q2R alpha) (map Q2R x) (map Q2R w).
+Proof. exact fuzzy_choice_QR. Qed.
+Theorem C03_executed_match_is_the_real_function : forall (x w : list Q),
+  option_map Q2R (@fuzzy_match QN x w) = @fuzzy_match RN (map Q2R x) (map Q2R w).
+Proof. exact fuzzy_match_QR. Qed.
+Theorem C03_executed_update_is_the_real_function : forall (beta : Q) (x w : list Q),
+  map Q2R (@fuzzy_update QN beta x w) = @fuzzy_update RN (Q2R beta) (map Q2R x) (map Q2R w).
+Proof. exact fuzzy_update_QR. Qed.
+Theorem C03_executed_fold_is_the_real_fold : forall (beta : Q) (members : list (list Q)) (w0 : list Q),
+  map Q2R (fold_left (fun w x => @fuzzy_update QN beta x w) members w0) =
+  fold_left (fun w x => @fuzzy_update RN (Q2R beta) x w) (map (map Q2R) members) (map Q2R w0).
+Proof. exact fuzzy_fold_QR. Qed.
 Print Assumptions C03_operator_table.
+Print Assumptions C03_executed_fold_is_the_real_fold.
 Print Assumptions C03_shrink_contained.
 
 From Coq Require Import QArith.
